@@ -1137,19 +1137,6 @@ func runExp(c *driver.Ctx, ec ExpCase) (reproduced bool) {
 				}
 			}
 			if idle && !cfg.WaitsForResult() {
-				// the size of a request is released by the goroutine that ran its export, right AFTER the export function
-				// returned (a flush worker of the batcher is no queue consumer and is not seen by ConsumersIdle): give that
-				// release a bounded moment before the gauge is judged — a size that was leaked stays leaked
-				for try := 0; try < 3000; try++ {
-					if sz, ok := tel.Gauge(expkit.QueueSizeGauge); !ok || sz == 0 {
-						break
-					}
-					if try < 50 {
-						runtime.Gosched()
-					} else {
-						time.Sleep(time.Millisecond)
-					}
-				}
 				sample("idle", 0, 0)
 			} else if !idle {
 				c.Observe("idle_sample_not_reached", 1)
